@@ -30,19 +30,21 @@ PROPS["C16"] = dict(
         "returning the caller's context unchanged is observed as Context::operator== plus an untouched span slot",
         SC_NOTE,
     ],
+    # rapidcheck processes under ASan grow in memory and slow down with the case count (allocation-stack
+    # depot + quarantine): the thorough tier scales the rc runs OUT (more processes), not up.
     runs=[
-        run("roundtrip", "c16_rc", "rt_inject_extract", "rc", dict(procs=3, cases=5000), dict(procs=8, cases=60000)),
-        run("struct", "c16_rc", "ex_struct", "rc", dict(procs=3, cases=45000), dict(procs=8, cases=400000)),
-        run("b3-single-bytes", "c16_rc", "b3_single_bytes", "rc", dict(procs=1, cases=10000), dict(procs=1, cases=100000)),
-        run("b3-multi-bytes", "c16_rc", "b3_multi_bytes", "rc", dict(procs=1, cases=10000), dict(procs=1, cases=100000)),
-        run("jaeger-bytes", "c16_rc", "jaeger_bytes", "rc", dict(procs=1, cases=10000), dict(procs=1, cases=100000)),
-        run("b3-single-fuzz", "c16_fuzz", "b3_single_bytes", "fuzz", dict(procs=2, cases=220000, max_len=160),
-            dict(procs=4, cases=6000000, max_len=300), replay_bin="c16_rc"),
-        run("b3-multi-fuzz", "c16_fuzz", "b3_multi_bytes", "fuzz", dict(procs=2, cases=200000, max_len=220),
-            dict(procs=4, cases=6000000, max_len=400), replay_bin="c16_rc"),
-        run("jaeger-fuzz", "c16_fuzz", "jaeger_bytes", "fuzz", dict(procs=2, cases=250000, max_len=160),
-            dict(procs=4, cases=6000000, max_len=300), replay_bin="c16_rc"),
-        run("struct-fuzz", "c16_fuzz", "ex_struct", "fuzz", dict(procs=1, cases=150000, max_len=100),
-            dict(procs=2, cases=3000000, max_len=100), replay_bin="c16_rc"),
+        run("roundtrip", "c16_rc", "rt_inject_extract", "rc", dict(procs=3, cases=4000), dict(procs=8, cases=12000)),
+        run("struct", "c16_rc", "ex_struct", "rc", dict(procs=3, cases=40000), dict(procs=10, cases=60000)),
+        run("b3-single-bytes", "c16_rc", "b3_single_bytes", "rc", dict(procs=1, cases=10000), dict(procs=1, cases=60000)),
+        run("b3-multi-bytes", "c16_rc", "b3_multi_bytes", "rc", dict(procs=1, cases=10000), dict(procs=1, cases=60000)),
+        run("jaeger-bytes", "c16_rc", "jaeger_bytes", "rc", dict(procs=1, cases=10000), dict(procs=1, cases=60000)),
+        run("b3-single-fuzz", "c16_fuzz", "b3_single_bytes", "fuzz", dict(procs=2, cases=160000, max_len=160),
+            dict(procs=3, cases=1500000, max_len=300), replay_bin="c16_rc"),
+        run("b3-multi-fuzz", "c16_fuzz", "b3_multi_bytes", "fuzz", dict(procs=2, cases=150000, max_len=220),
+            dict(procs=3, cases=1500000, max_len=400), replay_bin="c16_rc"),
+        run("jaeger-fuzz", "c16_fuzz", "jaeger_bytes", "fuzz", dict(procs=2, cases=180000, max_len=160),
+            dict(procs=3, cases=1500000, max_len=300), replay_bin="c16_rc"),
+        run("struct-fuzz", "c16_fuzz", "ex_struct", "fuzz", dict(procs=1, cases=100000, max_len=100),
+            dict(procs=2, cases=800000, max_len=100), replay_bin="c16_rc"),
     ],
 )
